@@ -70,6 +70,10 @@ CHECKS = {
  'C11': dict(engine='P', technique='bounded-exhaustive enumeration of pointer-operation sequences + exhaustive native execution with object-identity probes vs points-to queries of the real pointer analysis',
              text='Every sequence of <=2 (thorough <=3) operations over a 20-operation pointer alphabet, all valuations: probes of the same static type that saw the same object in one execution must MayAlias, and the marked allocation of a probed object must be a label of its points-to set.',
              note='values without a registered query are not judged (counted); small-scope bound', ref='§6 C11'),
+
+ 'C04': dict(engine='P', technique='exhaustive product role x call form x specification pattern vector with decoy sites; independent reference matcher (plain regexp on generator facts) vs the roles the real analysis assigns',
+             text='5625 cells (4 roles x up to 9 call forms x 225 pattern vectors), three call sites each (target, similarly named function, same method on another receiver): the reference says matched/unmatched per site and the reported flows of a skeleton program reveal whether the tool treated the site in the role; both missed and spurious matches are violations.',
+             note='receiver patterns on interface calls unjudged; identifier kinds type/field/store/channel and value-match not covered; backtrace-point role not covered', ref='§6 C04'),
 }
 NA = []
 def main():
